@@ -182,6 +182,8 @@ pub enum SAct {
     Meta { sid: u32, variant: u8 },
     MetaMalformed { sid: u32, shape: u8 },
     Ping { ts: u32 },
+    /// n ping requests (timestamps ts, ts+1, ...) delivered in ONE input call
+    PingBurst { ts: u32, n: u8 },
     UnknownCommand,
     /// arbitrary message: (msid, type id, body)
     Raw { msid: u32, type_id: u8, body: Vec<u8> },
@@ -259,6 +261,13 @@ impl ServerH {
                 _ => wire(ser, *sid, 0, &M::Data(vec![])),
             },
             SAct::Ping { ts } => wire(ser, 0, 0, &r2::user_control(6, *ts, 0)),
+            SAct::PingBurst { ts, n } => {
+                let mut all = Vec::new();
+                for k in 0..*n {
+                    all.extend(wire(ser, 0, 0, &r2::user_control(6, ts.wrapping_add(k as u32), 0)));
+                }
+                all
+            }
             SAct::UnknownCommand => wire(ser, 0, 0, &command("fooBar", 9.0, V::Null, vec![s("x")])),
             SAct::Raw { msid, type_id, body } => wire_raw(ser, *msid, 0, *type_id, body),
             _ => return None,
@@ -401,6 +410,8 @@ pub enum CAct {
     Meta { msid: u32, variant: u8 },
     MetaMalformed { msid: u32, shape: u8 },
     Ping { ts: u32 },
+    /// n ping requests (timestamps ts, ts+1, ...) delivered in ONE input call
+    PingBurst { ts: u32, n: u8 },
     Ack { n: u32 },
     UnknownCommand,
     Raw { msid: u32, type_id: u8, body: Vec<u8> },
@@ -464,6 +475,13 @@ impl ClientH {
                 _ => wire(ser, *msid, 0, &M::Data(vec![])),
             },
             CAct::Ping { ts } => wire(ser, 0, 0, &r2::user_control(6, *ts, 0)),
+            CAct::PingBurst { ts, n } => {
+                let mut all = Vec::new();
+                for k in 0..*n {
+                    all.extend(wire(ser, 0, 0, &r2::user_control(6, ts.wrapping_add(k as u32), 0)));
+                }
+                all
+            }
             CAct::Ack { n } => wire(ser, 0, 0, &M::Ack(*n)),
             CAct::UnknownCommand => wire(ser, 0, 0, &command("fooBar", 9.0, V::Null, vec![s("x")])),
             CAct::Raw { msid, type_id, body } => wire_raw(ser, *msid, 0, *type_id, body),
